@@ -124,7 +124,9 @@ def main(argv):
     sl_items = [(src, gen_prog.CONFIGS[(i + ck.seed) % 8]) for i, src in enumerate(sl)]
     sl_simple = [None] * len(sl_items)
     if b["driver_ok"]:
-        sl_simple = [r.get("simple") for r in leandrv.run_batch(lower_common.model_requests([(s_, (c_[1], c_[2])) for s_, c_ in sl_items]))]
+        sl_replies = list(leandrv.run_batch(lower_common.model_requests([(s_, (c_[1], c_[2])) for s_, c_ in sl_items])))
+        sl_simple = [r.get("simple") or r.get("simple_w") for r in sl_replies]
+        ck.count("theorem_module_with_while_covers", sum(1 for r in sl_replies if r.get("simple_w") and not r.get("simple")))
     covered = 0
     from common import load_known_findings
     known_all = load_known_findings("C01")
